@@ -1,0 +1,10 @@
+//go:build verif
+// +build verif
+
+package service
+
+// VerifResetPool forgets the pool singleton so that InitService opens it again (in-process
+// restart). Build tag "verif" only.
+func VerifResetPool() {
+	txpoolInstance = nil
+}
